@@ -567,6 +567,8 @@ func (vc *VC) pureDefAxiom(fc *FuncContract, sig *types.Signature, fnBase string
 		prefix = ""
 	}
 	rnames := vc.resultNames(fc, sig)
+	type resFn struct{ name, head, sort string }
+	var resFns []resFn
 	var sorts []string
 	for _, a := range args {
 		sorts = append(sorts, string(a.Sort))
@@ -589,21 +591,76 @@ func (vc *VC) pureDefAxiom(fc *FuncContract, sig *types.Signature, fnBase string
 			env.bound["result"] = res
 		}
 		pats = append(pats, ":pattern ("+res.S+")")
-		if f := vc.rangeFacts(res, rt, 1); f.S != "true" {
-			// results are well-typed values
-			facts = append(facts, tBool(true))
-			_ = f
-		}
+		resFns = append(resFns, resFn{name, res.S, string(rs)})
 	}
 	for _, rq := range fc.Requires {
 		facts = append(facts, vc.specBool(rq.Expr, env))
 	}
-	var posts []Term
-	for _, en := range fc.Ensures {
-		posts = append(posts, vc.specBool(en.Expr, env))
+	// one axiom per clause, so that clauses about other implementer kinds can
+	// be left out of a query (pruneKinds)
+	//
+	// A contract that mentions its own function on other arguments (fold of
+	// the children, ToEval of the operands) would be a matching loop: every
+	// instance creates the terms that trigger the next. Inside the clauses
+	// those applications use a limited twin symbol f$L, equal to f on every
+	// term f(x) that exists, which does not trigger the contract again.
+	// Two levels (f -> f$L -> f$LL) let the contract unfold twice below the
+	// terms of the goal, which is what the wiring contracts need (a node, its
+	// operands, their literal values), and then stop.
+	suffix2 := func(level int) string { return strings.Repeat("L", level) }
+	sym := func(name string, level int) string {
+		if level == 0 {
+			return name
+		}
+		return name + "$" + suffix2(level)
 	}
-	body := tImp(tAnd(facts...), tAnd(posts...))
-	vc.gassumes = append(vc.gassumes, fmt.Sprintf("(assert (forall (%s) (! %s %s))) ; contract of pure %s", strings.Join(decls, " "), body.S, strings.Join(pats, " "), fc.Key))
+	limited := false
+	// relevel rewrites a clause for the given level: its head terms become
+	// f$<level>, every other application of f becomes f$<level+1>
+	relevel := func(t string, level int) string {
+		for i, rf := range resFns {
+			t = strings.ReplaceAll(t, rf.head, fmt.Sprintf("\x00%d\x00", i))
+		}
+		for _, rf := range resFns {
+			if strings.Contains(t, "("+rf.name+" ") {
+				limited = true
+				t = strings.ReplaceAll(t, "("+rf.name+" ", "("+sym(rf.name, level+1)+" ")
+			}
+		}
+		for i, rf := range resFns {
+			h := strings.Replace(rf.head, "("+rf.name+" ", "("+sym(rf.name, level)+" ", 1)
+			t = strings.ReplaceAll(t, fmt.Sprintf("\x00%d\x00", i), h)
+		}
+		return t
+	}
+	const levels = 2
+	type cl struct{ body, guard string }
+	var cls []cl
+	for _, en := range fc.Ensures {
+		body := tImp(tAnd(facts...), vc.specBool(en.Expr, env))
+		cls = append(cls, cl{body.S, vc.guardKinds(en.Expr, env)})
+	}
+	patText := strings.Join(pats, " ")
+	for _, c := range cls {
+		b0 := relevel(c.body, 0)
+		vc.gassumes = append(vc.gassumes, fmt.Sprintf("(assert (forall (%s) (! %s %s))) ; contract of pure %s ; @guard %s", strings.Join(decls, " "), b0, patText, fc.Key, c.guard))
+	}
+	if limited {
+		for lv := 1; lv <= levels; lv++ {
+			for _, rf := range resFns {
+				vc.ss.declare(&sortInfo{Name: Sort("fn$" + sym(rf.name, lv)), Kind: "const", Decl: fmt.Sprintf("(declare-fun %s (%s) %s)", sym(rf.name, lv), strings.Join(sorts, " "), rf.sort)})
+				lo := strings.Replace(rf.head, "("+rf.name+" ", "("+sym(rf.name, lv-1)+" ", 1)
+				hi := strings.Replace(rf.head, "("+rf.name+" ", "("+sym(rf.name, lv)+" ", 1)
+				vc.gassumes = append(vc.gassumes, fmt.Sprintf("(assert (forall (%s) (! (= %s %s) :pattern (%s)))) ; limited twin of %s", strings.Join(decls, " "), lo, hi, lo, fc.Key))
+			}
+			if lv == levels {
+				break
+			}
+			for _, c := range cls {
+				vc.gassumes = append(vc.gassumes, fmt.Sprintf("(assert (forall (%s) (! %s %s))) ; contract of pure %s (level %d) ; @guard %s", strings.Join(decls, " "), relevel(c.body, lv), relevel(patText, lv), fc.Key, lv, c.guard))
+			}
+		}
+	}
 	vc.axiomsUsed = append(vc.axiomsUsed, "pure:"+strings.TrimPrefix(fc.Key, modPath+"/"))
 }
 
@@ -872,8 +929,8 @@ func (vc *VC) maybeDispatch(key string, sig *types.Signature) {
 			posts = append(posts, vc.specBool(en.Expr, env))
 		}
 		body := tImp(tAnd(facts...), tAnd(posts...))
-		vc.gassumes = append(vc.gassumes, fmt.Sprintf("(assert (forall (%s) (! %s %s))) ; dispatch %s -> %s",
-			strings.Join(decls, " "), body.S, strings.Join(pats, " "), key, k2))
+		vc.gassumes = append(vc.gassumes, fmt.Sprintf("(assert (forall (%s) (! %s %s))) ; dispatch %s -> %s ; @guard %s.%d",
+			strings.Join(decls, " "), body.S, strings.Join(pats, " "), key, k2, isort, vc.ss.typeID(T)))
 		vc.axiomsUsed = append(vc.axiomsUsed, "dispatch:"+strings.TrimPrefix(k2, modPath+"/"))
 	}
 }
